@@ -11,24 +11,8 @@ from . import rsclient
 
 
 def _call(req: Dict[str, Any]) -> Dict[str, Any]:
-    """One request/response over the shared harness process, read through a buffered reader (responses are
-    megabytes; the shared client reads its unbuffered pipe byte by byte)."""
-    client = rsclient.shared()
-    reader = getattr(client, "_c16_reader", None)
-    if reader is None:
-        reader = io.BufferedReader(client.proc.stdout, 1 << 20)  # type: ignore[arg-type]
-        client._c16_reader = reader  # type: ignore[attr-defined]
-    data = (json.dumps(req, separators=(",", ":")) + "\n").encode()
-    try:
-        client.proc.stdin.write(data)  # type: ignore[union-attr]
-        client.proc.stdin.flush()  # type: ignore[union-attr]
-        line = reader.readline()
-    except (BrokenPipeError, OSError) as exc:
-        raise HarnessError(f"rust harness pipe failed: {exc!r}")
-    if not line.endswith(b"\n"):
-        raise HarnessError(f"rust harness died mid-response (rc={client.proc.poll()}, got {len(line)} bytes) "
-                           f"on request {str(req)[:160]}")
-    return json.loads(line)
+    """One request/response over the shared harness process (the shared client's pipes are buffered)."""
+    return rsclient.shared().call(req)
 
 
 def ops(batch: List[Dict[str, Any]]) -> List[Dict[str, Any]]:
